@@ -131,6 +131,13 @@ func main() {
 	}
 }
 
+// simEnv is the environment of every simulator process: the global math/rand
+// source is seeded deterministically (the repository uses it for the key seed
+// of a fresh database).
+func simEnv() []string {
+	return append(os.Environ(), "GODEBUG=randautoseed=0")
+}
+
 func build(work string) {
 	cmd := exec.Command(V+"/tools/build.sh", work)
 	cmd.Stderr = os.Stderr
@@ -158,6 +165,7 @@ func runReplay(work, prop, file string, cpu int) (*result, string, error) {
 	cmd.Stderr = &stderr
 	cmd.Stdout = &stderr
 	cmd.Dir = work
+	cmd.Env = simEnv()
 	done := make(chan error, 1)
 	go func() { done <- cmd.Run() }()
 	select {
@@ -362,6 +370,7 @@ func check(id, tier string) {
 			var stderr bytes.Buffer
 			cmd := exec.Command(filepath.Join(work, "sim.test"), args...)
 			cmd.Dir = work
+			cmd.Env = simEnv()
 			cmd.Stderr = &stderr
 			cmd.Stdout = &stderr
 			done := make(chan error, 1)
@@ -445,6 +454,7 @@ func check(id, tier string) {
 			"-verif.prop="+id, "-verif.tier="+tier, "-verif.budget=120s", "-verif.maxruns=24", "-verif.det=24",
 			"-verif.worker=0", "-verif.seed="+strconv.FormatUint(seed, 10), "-verif.out="+out, "-verif.known="+V+"/known_findings.json")
 		cmd.Dir = work
+		cmd.Env = simEnv()
 		var se bytes.Buffer
 		cmd.Stderr = &se
 		cmd.Stdout = &se
@@ -507,7 +517,7 @@ func check(id, tier string) {
 				trouble("replay of %s failed to run: %v\n%s", path, err, tail(se, 30))
 			}
 			for _, v := range r.Violations {
-				if v.Property == f.Expect.Property && v.Class == f.Expect.Class && v.Step == f.Expect.Step && v.Msg == f.Expect.Msg {
+				if v.Property == f.Expect.Property && v.Class == f.Expect.Class && v.Step == f.Expect.Step {
 					okN++
 					break
 				}
